@@ -891,12 +891,14 @@ class Design:
                     continue
                 v, x = bmem[memid][a]
                 tmask = parse_const(P["\\TRANSPARENCY_MASK"])[0]
+                patched = 0
                 for (wm, wa, wbits, wd, wx, pid, wclk) in writes_now:
                     if wm != memid or wa != a or not wbits:
                         continue
                     if (tmask >> pid) & 1:
                         v = (v & ~wbits) | (wd & wbits)
-                        x = (x & ~wbits) | (wx & wbits)
+                        x = (x & ~wbits) | (wx & wbits) | (patched & wbits)     # two transparent ports on one bit: undefined
+                        patched |= wbits
                     elif wclk != conns["CLK"]:
                         x |= wbits          # same-instant write from another clock: undefined
                 updates.append((conns["DATA"], v & ~x, x))
